@@ -20,6 +20,7 @@ RULE = (
     "equals the original and the independent spec hash; the emitted document survives json.dumps, has exactly the fixed field names, and every argument is a "
     "{type[, value]} node from the known vocabulary with a value of the right JSON shape. Non-trivial = nested function reference with partials, zoned datetime, "
     "non-finite float, '#' in the content key, or >= 2 invocations; distinct by structural shape."
+    " Round 5: dependency sets may hold several versions of one function (references that do not resolve here); arguments may be functions that cannot be resolved here (plain, partially applied, inside a list); the arguments held by each reference object are compared with the arguments given (encoded by the independent specification, so that a lossy normalisation in the constructor shows); every memento is also written through the metadata path of a filesystem store and read back by a new backend object."
 )
 ASSUMPTIONS = [
     "Python's NaN/Infinity literals are tolerated as plain JSON (the written hashing specification says floats get no special encoding)",
@@ -28,7 +29,7 @@ ASSUMPTIONS = [
 ]
 MANIFEST = {
     "level": "exploration",
-    "technique": "property-based testing with Hypothesis: round-trip oracle through real JSON text, hash-preservation differential against an independent spec hash, hand-written schema validator",
+    "technique": "property-based testing with Hypothesis: round-trip oracle through real JSON text, hash-preservation differential against an independent spec hash, hand-written schema validator; the same mementos through the metadata files of a real store",
     "text": "Generated mementos are pushed through encode -> JSON text -> decode and compared field by field; the emitted document is validated against a schema written from the encoder's documented shape.",
     "note": "Trusts vlib/argspec.py for canonical comparison and the hard-coded wire vocabulary.",
 }
